@@ -101,6 +101,14 @@ func judge(r *mon.Run, s *signed, e *signedexchange.Exchange, t time.Time, fetch
 	p, pv := r.Call(id, nil, func() { payload, ok = e.Verify(t, fetch, log.New(&lb, "", 0)) })
 	key := fmt.Sprintf("ver:%s:%s:%s", s.desc, class, mut)
 	det := map[string]any{"exchange": s.desc, "class": class, "mutation": mut, "verification_time": t.Unix(), "signed_date": s.spec.Date.Unix(), "signed_expires": s.spec.Expires.Unix()}
+	if !p && nCase%5 == 0 {
+		// Verify is a query: asked again about the same exchange it gives the same answer
+		payload2, ok2 := e.Verify(t, fetch, log.New(&bytes.Buffer{}, "", 0))
+		if ok2 != ok || !bytes.Equal(payload2, payload) {
+			r.Eval(class + ":VERIFY-NOT-REPEATABLE")
+			r.Violation(key+":repeat", fmt.Sprintf("%s: two consecutive Verify calls disagree (%v then %v)", id, ok, ok2), det)
+		}
+	}
 	outcome := ""
 	inWindow := !t.Before(s.spec.Date) && !t.After(s.spec.Expires)
 	switch {
